@@ -58,6 +58,7 @@ type Engine struct {
 	mu      sync.Mutex
 	funcsUnderContract map[string]bool
 	constGlobals       map[*ssa.Global]bool
+	knownOpen          map[string]bool // obligations listed as known findings: not worth the second solver round
 }
 
 func NewEngine(repo, workdir string) *Engine {
@@ -407,7 +408,7 @@ func (e *Engine) Solve(secs int, workers int) {
 				if j.q.Expect == "sat" {
 					want = "sat"
 				}
-				if r.Status != want && (r.Status == "timeout" || r.Status == "unknown") && j.q.Expect != "sat" {
+				if r.Status != want && (r.Status == "timeout" || r.Status == "unknown") && j.q.Expect != "sat" && !e.knownOpen[j.o.Name] {
 					// second round: more random seeds, raced
 					r2 := raceWith(moreSolvers, e.workdir, j.o.Name+"_retry", j.q.Script, secs, true)
 					if r2.Status == "unsat" || r2.Status == "sat" {
